@@ -4,11 +4,12 @@ Driver for C13.  Request line:
 entries: comma separated `n` or `a-b` (half-open [a,b)), `_` for the empty list.
 ops: `add <entry>` `disc <entry>` `ior <entries>` `isub <entries>` `iand <entries>` `ixor <entries>`
 Answer: for the initial state and after every op, separated by `|`:
-  <model list>#<spec membership bits over the window>#<spec canonical list>#<safe: 1 if no unsafe add since the last canonical model state>
+  <model list>#<spec membership bits over the window>#<spec canonical list>#<safe: 1 if no unsafe add since the last canonical model state>#<okd: 0 once a list-operand ^= had overlapping entries (F13d)>
 followed by `|C:<model complement list or ERR>`.
 -/
 import EPV.Proto
 import EPV.Spec.SetSpec
+import EPV.Spec.CharSubsetSpec
 open EPV.Proto EPV.USet
 
 def parseEntry (s : String) : Option CP :=
@@ -31,16 +32,30 @@ def showEntries (l : List CP) : String :=
 (iterable or string argument, through `iter_code_points(reverse=True)`) -/
 inductive DOp where
   | core (op : Op) | upd (o : List CP) | dupd (o : List CP)
+  | iorl (o : List CP) | isubl (o : List CP) | iandl (o : List CP) | ixorl (o : List CP)
+  | upds (s : List Nat) | dupds (s : List Nat)   -- update / difference_update with a character-subset string
 
 def dstep (l : List CP) : DOp → List CP
+  | .upds s => (updateStr l s.toArray).getD l        -- error case handled by `dstepErr`
+  | .dupds s => (differenceUpdateStr l s.toArray).getD l
   | .core op => step l op
   | .upd o => update l o
   | .dupd o => differenceUpdate l o
+  | .iorl o => iorList l o
+  | .isubl o => isubList l o
+  | .iandl o => iandList l o
+  | .ixorl o => ixorList l o
 
 def parseOp (s : String) : Option DOp :=
   match s.trimAscii.toString.splitOn " " with
   | ["upd", e] => (parseEntries e).map .upd
   | ["dupd", e] => (parseEntries e).map .dupd
+  | ["upds", e] => ((e.splitOn ".").filter (· ≠ "") |>.mapM nat?).map .upds
+  | ["dupds", e] => ((e.splitOn ".").filter (· ≠ "") |>.mapM nat?).map .dupds
+  | ["iorl", e] => (parseEntries e).map .iorl
+  | ["isubl", e] => (parseEntries e).map .isubl
+  | ["iandl", e] => (parseEntries e).map .iandl
+  | ["ixorl", e] => (parseEntries e).map .ixorl
   | other => (parseCore other).map .core
 where parseCore : List String → Option Op
   | ["add", e] => (parseEntry e).map .add
@@ -55,8 +70,13 @@ def foldSafe (l : List CP) (vs : List CP) : Bool :=
   (vs.foldl (fun (acc : List CP × Bool) v => (add v acc.1, acc.2 && addSafe v acc.1)) (l, true)).2
 
 def opSafe (l : List CP) : DOp → Bool
-  | .upd o => foldSafe l (iterCodePoints true o)
-  | .dupd _ => true
+  | .upd o | .iorl o => foldSafe l (iterCodePoints true o)
+  | .upds s => foldSafe l (iterCodePoints true ((iterparse s.toArray).getD []))
+  | .dupds _ => true
+  | .dupd _ | .isubl _ | .iandl _ => true
+  | .ixorl o => ((iter (ofList o)).foldl (fun (acc : List CP × Bool) n =>
+      if contains n acc.1 then (discard (.one n) acc.1, acc.2)
+      else (add (.one n) acc.1, acc.2 && addSafe (.one n) acc.1)) (l, true)).2
   | .core op => coreSafe op
 where coreSafe : Op → Bool
   | .add v => addSafe v l
@@ -67,7 +87,8 @@ where coreSafe : Op → Bool
   | _ => true
 
 def argsValid : DOp → Bool
-  | .upd o | .dupd o => o.all CP.validArg
+  | .upd o | .dupd o | .iorl o | .isubl o | .iandl o | .ixorl o => o.all CP.validArg
+  | .upds _ | .dupds _ => true
   | .core op => coreValid op
 where coreValid : Op → Bool
   | .add v => v.validArg
@@ -92,8 +113,12 @@ def answer (line : String) : String :=
             let x := base + i
             let sx := S.getD i false
             match dop with
-            | .upd o => sx || decide (memL x o)
-            | .dupd o => sx && !decide (memL x o)
+            | .upds s => sx || decide (memL x ((specGroup s).getD []))
+            | .dupds s => sx && !decide (memL x ((specGroup s).getD []))
+            | .upd o | .iorl o => sx || decide (memL x o)
+            | .dupd o | .isubl o => sx && !decide (memL x o)
+            | .iandl o => sx && decide (memL x o)
+            | .ixorl o => (sx && !decide (memL x o)) || (!sx && decide (memL x o))
             | .core op =>
             match op with
             | .add v => sx || decide (v.mem x)
@@ -102,14 +127,25 @@ def answer (line : String) : String :=
             | .isub o => sx && !decide (memL x o)
             | .iand o => sx && decide (memL x o)
             | .ixor o => (sx && !decide (memL x o)) || (!sx && decide (memL x o))
-        let show1 (l : List CP) (S : List Bool) (safe : Bool) : String :=
-          s!"{showEntries l}#{bits S}#{showEntries (canonOfBits base S)}#{if safe then 1 else 0}"
-        let (_, _, _, outs, lfin) := ops.foldl (fun (st : List CP × List Bool × Bool × List String × List CP) op =>
-            let (l, S, safe, outs, _) := st
+        let show1 (l : List CP) (S : List Bool) (safe : Bool) (okd : Bool := true) : String :=
+          s!"{showEntries l}#{bits S}#{showEntries (canonOfBits base S)}#{if safe then 1 else 0}#{if okd then 1 else 0}"
+        -- F13d trigger: a `^=` whose plain-list operand has overlapping entries (so iterating it repeats code points)
+        let opOkD : DOp → Bool
+          | .ixorl o => decide (WInv (ofList o))
+          | _ => true
+        let (_, _, _, outs, lfin, _) := ops.foldl (fun (st : List CP × List Bool × Bool × List String × List CP × Bool) op =>
+            let (l, S, safe, outs, _, okd) := st
+            let okd' := okd && opOkD op
             let safe' := (if decide (Canon l) then true else safe) && opSafe l op
+            let merr := match op with
+              | .upds s | .dupds s => (iterparse s.toArray).isNone
+              | _ => false
+            let serr := match op with
+              | .upds s | .dupds s => (specGroup s).isNone
+              | _ => false
             let l' := dstep l op
             let S' := specStepW S op
-            (l', S', safe', outs ++ [show1 l' S' safe'], l')) (init, bits0, true, [show1 init bits0 true], init)
+            (l', S', safe', outs ++ [(if merr then "MERR " else "") ++ (if serr then "SERR " else "") ++ show1 l' S' safe' okd'], l', okd')) (init, bits0, true, [show1 init bits0 true], init, true)
         let c := match complement lfin with
           | some cl => showEntries cl
           | none => "ERR"
